@@ -132,7 +132,9 @@ HARNESSES = [
          flags=LEAK, timeout=9000, unwind=2,
          unwindset=["copy_node:4", "destroy_nodes_dfs:4"] + ["harness.%d:4" % i for i in range(5)],
          cases=[dict(id="dot%d_nn%d" % (d, n), defines={"DOT": d, "NN": n}, tier=t)
-                for d, n, t in ((1, 0, "quick"), (0, 0, "thorough"), (1, 1, "thorough"), (1, 2, "thorough"))]),
+                # dot1_nn1 (a non-empty cache, ~4 min) is in the quick tier since seed C19-5:
+                # a copy that starts with an EMPTY cache is only visible with >= 1 node
+                for d, n, t in ((1, 0, "quick"), (0, 0, "thorough"), (1, 1, "quick"), (1, 2, "thorough"))]),
     dict(name="xattr_writer", file="xattr_writer.c", label="bounded(blocks<=1,pairs=3)", weight=6,
          fp={"destroy": "xattr_writer_destroy", "copy": "xattr_writer_copy",
              "key_compare": "block_compare"},
